@@ -18,6 +18,8 @@ import (
 
 func main() {
 	flag.Parse()
+	// the library must render UTC whatever the process's local zone is
+	time.Local = time.FixedZone("SIM", 5*3600+30*60)
 	run.FixedClock = true
 	wrk.StartWatchdog(20 * time.Second)
 	rl := wrk.OpenRaceLog()
